@@ -251,3 +251,32 @@ open ASV ASV.Packing
 def SharesBase (a b : Loc) : Prop := ∃ i : Int, a.mem i = true ∧ b.mem i = true
 
 end ASV.Packing.Spec
+
+/-! ### the protoclusters of a region -/
+namespace ASV.Packing.Spec
+open ASV ASV.Packing
+
+/-- keep the first of every group of entries with the same identity -/
+def dedupId : List PObj → List PObj
+  | [] => []
+  | p :: ps => p :: (dedupId ps).filter (·.id != p.id)
+
+/-- the protoclusters of a region are the protoclusters of its candidate clusters, each object
+    once however many candidate clusters share it — and two *different* objects both count, even
+    when they agree in extent and product (a detected cluster and a sideloaded annotation of it,
+    or two clusters of one product with different cores) -/
+def regionProtos (cands : List Cand) : List PObj := dedupId (cands.flatMap (·.members))
+
+/-- what has to be drawn for a region given by its children -/
+def regionSpecIn (subs : List Feat) (cands : List Cand) : RegionIn :=
+  { subregions := subs, candidates := cands.map (·.feat), protos := (regionProtos cands).map (·.feat) }
+
+/-- identities are identities: entries with the same id are the same object -/
+def idsConsistent (l : List PObj) : Bool :=
+  l.all fun p => l.all fun q => p.id != q.id || p == q
+
+/-- `delivered` is exactly the region's protoclusters, each once (compared by identity) -/
+def deliveredOk (cands : List Cand) (delivered : List PObj) : Bool :=
+  (delivered.map (·.id)).isPerm ((regionProtos cands).map (·.id))
+
+end ASV.Packing.Spec
